@@ -3,8 +3,8 @@
 1. TLC checks the decision table PluginEvents.tla (the ideal outcome of every row is allowed,
    an event carrying the raw packet and a forwarded registration without its event are
    rejected) and exports the rows: handler phase x message kind x subscriber action x body shape.
-2. The live rig drives every row through the real handlers: clients at 1.20.1 and 1.20.4, a
-   scripted backend, an event manager subscribed to PlayerChannelRegisterEvent and
+2. The live rig drives every row through the real handlers: clients at 1.8, 1.12.2 (legacy channel
+   names), 1.20.1 and 1.20.4, a scripted backend, an event manager subscribed to PlayerChannelRegisterEvent and
    PluginMessageEvent, a channel registered with the proxy's ChannelRegistrar.
 3. TLC validates every recorded row (events, their Data(), forwarded packets) with Allowed.
 """
@@ -19,7 +19,8 @@ META = {
             "(client play / client config / backend play / backend config x register / unregister / registered "
             "channel / other channel x subscriber action x body shape incl. empty, many and invalid channel "
             "names), checks the table's sanity and non-vacuity, and every row is driven through the real handlers "
-            "on the live proxy; the logged events and forwarded packets are validated by TLC row by row. Inputs "
+            "on the live proxy (1.20.4 for the configuration handlers; 1.8, 1.12.2 with the legacy REGISTER / "
+            "UNREGISTER names, 1.20.1 and 1.20.4 for the play handlers); the logged events and forwarded packets are validated by TLC row by row. Inputs "
             "are the quantifier; the table is exhaustive over the modelled classes.",
     "design_ref": "DESIGN.md section 4, C25",
     "level_note": "Whether a message is forwarded at all (default results differ per handler) and whether a "
@@ -69,6 +70,8 @@ def run(ctx):
         else:
             why = "row-rejected"
         key = "%s:%s:%s" % (b.get("phase"), b.get("kind"), why)
+        if b.get("proto", 999) < 393:
+            key += ":pre-1.13-client"
         small = dict(b)
         for f in ("body", "pm", "fwd"):
             if len(json.dumps(small.get(f))) > 200:
